@@ -130,7 +130,7 @@ def libcall(fn, *a, **k):
 # --------------------------------------------------------------------------
 # tensor recipes: all content randomness comes from Hypothesis-drawn seeds
 RECIPE_KINDS = ['gaussian', 'gaussian', 'sparse', 'constant', 'wide', 'offset',
-                'ramp', 'ints', 'spike']
+                'ramp', 'ints', 'spike', 'contrast']
 
 
 def make(recipe, shape, dtype=np.float64):
@@ -161,6 +161,15 @@ def make(recipe, shape, dtype=np.float64):
     elif kind == 'spike':
         a = np.zeros(n)
         a[rs.randint(n)] = 1.0
+        a = a.reshape(shape)
+    elif kind == 'contrast':
+        # +1 / -1 pairs: non-zero but summing exactly to zero (defeats 'x.sum() == 0 means empty' shortcuts)
+        a = np.zeros(n)
+        for _ in range(1 + int(recipe['seed']) % 3):
+            i, j = rs.randint(n), rs.randint(n)
+            if i != j:
+                a[i] += 1.0
+                a[j] -= 1.0
         a = a.reshape(shape)
     elif kind == 'zeros':
         a = np.zeros(shape)
